@@ -149,13 +149,13 @@ type c18CB struct {
 }
 
 type c18Case struct {
-	name     string
-	data     []byte
-	bufSize  int
-	mode     string
-	eofSep   bool
-	errAt    int
-	cbErrAt  int
+	name       string
+	data       []byte
+	bufSize    int
+	mode       string
+	eofSep     bool
+	errAt      int
+	cbErrAt    int
 	wellFormed bool
 }
 
@@ -298,12 +298,12 @@ func TestVerifC18(t *testing.T) {
 	mine := func() bool { item++; return vh.Mine(item) }
 
 	small := map[string][]c18Box{
-		"moov+mdat":      {{"moov", 8}, {"mdat", 10}},
-		"moof+mdat":      {{"moof", 8}, {"mdat", 9}},
-		"mdat+mdat":      {{"mdat", 8}, {"mdat", 8}},
-		"styp+moof+mdat": {{"styp", 8}, {"moof", 8}, {"mdat", 9}},
-		"ftyp+moov":      {{"ftyp", 8}, {"moov", 9}},
-		"mdat+free":      {{"mdat", 9}, {"free", 8}},
+		"moov+mdat":           {{"moov", 8}, {"mdat", 10}},
+		"moof+mdat":           {{"moof", 8}, {"mdat", 9}},
+		"mdat+mdat":           {{"mdat", 8}, {"mdat", 8}},
+		"styp+moof+mdat":      {{"styp", 8}, {"moof", 8}, {"mdat", 9}},
+		"ftyp+moov":           {{"ftyp", 8}, {"moov", 9}},
+		"mdat+free":           {{"mdat", 9}, {"free", 8}},
 		"moof+mdat+moof+mdat": {{"moof", 8}, {"mdat", 8}, {"moof", 8}, {"mdat", 8}},
 	}
 	if quick {
@@ -443,11 +443,11 @@ func TestVerifC18(t *testing.T) {
 		t.Fatalf("testdata missing: %v %v %v", err1, err2, err3)
 	}
 	real := map[string][]byte{
-		"video_init":       vinit,
-		"audio_init":       ainit,
-		"chunked":          media,
-		"init+chunked":     append(append([]byte{}, vinit...), media...),
-		"chunked+chunked":  append(append([]byte{}, media...), media...),
+		"video_init":      vinit,
+		"audio_init":      ainit,
+		"chunked":         media,
+		"init+chunked":    append(append([]byte{}, vinit...), media...),
+		"chunked+chunked": append(append([]byte{}, media...), media...),
 	}
 	for name, data := range real {
 		bufs := []int{0, 1, 7, 8, 9, 1024, len(data) - 1, len(data), len(data) + 1}
